@@ -9,6 +9,8 @@ import (
 	"math/rand"
 	"os"
 	"path/filepath"
+	"runtime"
+	"runtime/debug"
 	"sort"
 
 	oaerrors "github.com/go-openapi/errors"
@@ -231,6 +233,7 @@ func driveResult(args []string) error {
 	installResultPoison()
 	r := rand.New(rand.NewSource(*seed))
 	rids := []string{"r1", "r2", "r3", "r4", "r5"}
+	debug.SetGCPercent(-1) // the pool hands redeemed results back (collected by hand every few sequences)
 	msgs := []string{"m1", "m2", "m3", "m4", "m5", "m6", "nil"}
 	w := newChunkWriter(*out, 0)
 	defer w.close()
@@ -238,6 +241,16 @@ func driveResult(args []string) error {
 	var samples []interface{}
 	inChunk := 0
 	for s := 0; s < *n; s++ {
+		// every other sequence without scribbling: a redeemed result keeps its NATURAL stale content (poison replaces the
+		// message buffers, which masks a change whose effect depends on their real capacity or content)
+		if s%2 == 1 {
+			validate.VerifOnRedeem = nil
+		} else {
+			installResultPoison()
+		}
+		if s%8 == 7 {
+			runtime.GC()
+		}
 		if w.ev == nil || inChunk >= *chunk {
 			if err := w.open(); err != nil {
 				return err
@@ -274,6 +287,12 @@ func driveResult(args []string) error {
 				ms := []interface{}{}
 				for j := r.Intn(4); j > 0; j-- {
 					ms = append(ms, msgs[r.Intn(len(msgs))])
+				}
+				if r.Intn(7) == 0 {
+					// a large batch of distinct messages (buffers that outgrow whatever capacity a recycled result keeps)
+					for j := 1; j <= 20; j++ {
+						ms = append(ms, fmt.Sprintf("b%d", j))
+					}
 				}
 				op["ms"] = ms
 			case c == 3:
